@@ -253,6 +253,7 @@ theorem runBase_G (cfg : Cfg) (sa : Option String) (b : Base) (script : List Srv
     simp only []
     rw [hx]
     exact G_append_plain (G_wPlain (by simp [plainEv])) hp
+  | failing n => exact G_nil
 
 theorem retryIter_G (cfg : Cfg) (sa : Option String) (b : Base) :
     ∀ (fuel : Nat) (script : List Srv) (pk : Nat) (evs : List Ev) (calls : Nat), G evs →
